@@ -422,6 +422,18 @@ func sec(f float64) time.Duration { return time.Duration(f * float64(time.Second
 // endpoint keeps being probed for real at bounded intervals ... becomes routable again on the first probe
 // that succeeds"). The loop's ticker period is DefaultHealthCheckInterval, so this takes about that long.
 func loopScenario() map[string]any {
+	var res map[string]any
+	for try := 0; try < 3; try++ {
+		res = loopScenario1()
+		// the scenario only says something if the endpoint was down when the stack had started
+		if st, _ := res["status_at_start"].(string); st != string(domain.StatusHealthy) {
+			break
+		}
+	}
+	return res
+}
+
+func loopScenario1() map[string]any {
 	b := stack.NewBackend("L")
 	defer b.Close()
 	b.SetBehaviour(stack.Behaviour{Kind: "ok", Status: 200, Headers: [][2]string{{"Content-Type", "application/json"}}, Body: []byte("{}")})
